@@ -250,5 +250,48 @@ func VfModeGate() {
 	vfReach("gate/end")
 }
 
+// VfModeEventRace (C13): a mode switch (as the subscriber loop performs it on
+// a reachability event) races with an inbound request's per-message mode
+// check, under every interleaving within the context-switch budget: the
+// switch is never lost.
+func VfModeEventRace() {
+	vfSchedBudget(vfParam("SWITCH"))
+	vfSchedLIFO(vfBool("scheduleMostRecentlyWokenFirst"))
+	e := vfNewEnv(2, 3, 1)
+	d := e.dht
+	target := modeClient
+	if vfBool("startInClientMode") {
+		d.mode = modeClient
+		target = modeServer
+	} else {
+		for _, p := range d.serverProtocols {
+			e.host.handlers[p] = true
+		}
+	}
+	conn := &vfConn{remote: peer.ID("remote")}
+	st := &vfStream{conn: conn, proto: d.serverProtocols[0], dir: network.DirInbound}
+	ping := pb.NewMessage(pb.Message_PING, nil, 0)
+	st.in = append(vfFrame(ping), vfFrame(ping)...)
+	done := make(chan struct{}, 2)
+	var serr error
+	go func() {
+		d.handleNewMessage(st)
+		done <- struct{}{}
+	}()
+	go func() {
+		serr = d.setMode(target)
+		done <- struct{}{}
+	}()
+	<-done
+	<-done
+	vfAssert(serr == nil, "mode/switch-succeeds")
+	vfAssert(d.getMode() == target, "mode/a-switch-is-never-lost-to-a-concurrent-request")
+	for _, p := range d.serverProtocols {
+		vfAssert(e.host.handlers[p] == (target == modeServer), "mode/handlers-registered-iff-server")
+	}
+	vfReach("moderace/end")
+}
+
+var _ = vfRegister("VfModeEventRace", VfModeEventRace)
 var _ = vfRegister("VfModeSwitch", VfModeSwitch)
 var _ = vfRegister("VfModeGate", VfModeGate)
